@@ -974,6 +974,24 @@ def nat_validate(h):
         else:
             ok = got[0] == 'ok' and got[1] == rows
         h.check(ok, P + 'validate.py::validate', (vals, mode, use_field), None, got[:2])
+        # the handler's call log: every bad row is reported once, with ITS index in the incoming stream (whatever happened to the
+        # bad rows before it), its own row object contents, and the field for the one-field form; a handler that drops some and
+        # raises on a later one aborts with that row's index
+        log = []
+        stop_at = h.rng.choice([None, None] + bad[1:2])
+
+        def handler(res_name, row, i, e, field=None):
+            log.append((res_name, dict(row), i, getattr(field, 'name', None)))
+            if i == stop_at:
+                raise RuntimeError('handler gives up at %d' % i)
+            return False if i % 2 == 0 else True      # (drops some, keeps some)
+        got = h.run(lambda: Flow([dict(r) for r in rows], validate(*args, on_error=handler)).results(on_error=None)[0][0])
+        upto = [i for i in bad if stop_at is None or i <= stop_at]
+        want_log = [('res_1', rows[i], i, 'a' if use_field else None) for i in upto]
+        want_rows = [r for i, r in enumerate(rows) if i not in bad or i % 2 == 1]
+        okl = log == want_log and ((got[0] == 'ok' and got[1] == want_rows) if stop_at is None else got[0] == 'exc')
+        h.check(okl, P + 'validate.py::validate.rows_validator', (vals, 'handler log', use_field, stop_at), (want_log, want_rows),
+                (log, got[1] if got[0] == 'ok' else got[:2]))
 
 
 from contracts import C10 as _K10   # noqa: E402  (ResourceMatcher: the contract every selector-taking step is checked against)
